@@ -180,7 +180,11 @@ def matrix_mode(engine, rows):
 def split_mode(engine, rows, k):
     a = array_mode(engine, rows[:k])
     b = array_mode(engine, rows[k:])
-    return np.vstack([a[0], b[0]]), [x + y for x, y in zip(a[1], b[1])]
+
+    def per_row(col, n):  # a row-independent fuzzy value (disabled / constant output) holds for every row of its call
+        return col * n if len(col) == 1 and n > 1 else col
+
+    return np.vstack([a[0], b[0]]), [per_row(x, k) + per_row(y, len(rows) - k) for x, y in zip(a[1], b[1])]
 
 
 def check_batch(acc: Acc, recipe: dict, lock, rows) -> None:
